@@ -20,17 +20,21 @@ Definition api_point (a : list Z) : list Z :=
   | None => bad_input
   end.
 
-(* operations: 0 New | 1 AllocR r0 r1 | 2 Domain s a b | 3 Range s c
-               | 4 Clamp s b | 5 Nice s m | 6 Copy s *)
+(* operations: 0 New | 1 Alloc a b | 2 Domain s a b | 3 Range s c | 4 Clamp s b
+               | 5 Nice s m | 6 Copy s | 7 NewWith d r | 8 RangeOfDomain s t
+               | 9 RangeOfRange s t *)
 Definition d_op : dec op := fun l =>
   match l with
   | 0 :: r => Some (ONew, r)
-  | 1 :: r => match d_cell r with Some (c, r') => Some (OAllocR c, r') | None => None end
+  | 1 :: r => match d_cell r with Some (c, r') => Some (OAlloc c, r') | None => None end
   | 2 :: r => match d_pair d_nat d_cell r with Some ((s, c), r') => Some (ODomain s c, r') | None => None end
   | 3 :: r => match d_pair d_nat d_nat r with Some ((s, c), r') => Some (ORange s c, r') | None => None end
   | 4 :: r => match d_pair d_nat d_bool r with Some ((s, b), r') => Some (OClamp s b, r') | None => None end
   | 5 :: r => match d_pair d_nat d_z r with Some ((s, m), r') => Some (ONice s m, r') | None => None end
   | 6 :: r => match d_nat r with Some (s, r') => Some (OCopy s, r') | None => None end
+  | 7 :: r => match d_pair d_nat d_nat r with Some ((d, g), r') => Some (ONewWith d g, r') | None => None end
+  | 8 :: r => match d_pair d_nat d_nat r with Some ((s, t), r') => Some (ORangeOfDomain s t, r') | None => None end
+  | 9 :: r => match d_pair d_nat d_nat r with Some ((s, t), r') => Some (ORangeOfRange s t, r') | None => None end
   | _ => None
   end.
 
@@ -56,7 +60,7 @@ Definition step_sensitive (st : state) (o : op) : bool :=
   match o with
   | ONice i m =>
       match nth_error (scales st) i with
-      | Some s => match nth_error (dheap st) (dom s) with
+      | Some s => match nth_error (heap st) (dom s) with
                   | Some d => nice_sensitive m d
                   | None => false
                   end
@@ -103,6 +107,19 @@ Definition api_ticks (a : list Z) : list Z :=
   | None => bad_input
   end.
 
+(* 232 (tie only): a b m -> the admissible outcomes of the double computation
+   inside the ambiguity band (Scale/Band.v): each is step decimals ticks texts *)
+Definition api_ticks_alts (a : list Z) : list Z :=
+  match d_pair (d_pair d_q d_q) d_z a with
+  | Some ((da, db, m), _) =>
+      1 :: e_list (fun sl : Q * list Q =>
+                     let (st, l) := sl in
+                     let n := decimals st in
+                     e_q st ++ [n] ++ e_list e_q l ++ e_list e_z (map (fmt n) l))
+                  (ticks_alts da db m)
+  | None => bad_input
+  end.
+
 (* 231: q -> ilog10 q (0 if the search ran out of fuel) *)
 Definition api_ilog (a : list Z) : list Z :=
   match d_q a with
@@ -127,6 +144,7 @@ Definition api_scale (cmd : Z) (a : list Z) : list Z :=
   | 201 => api_history a
   | 230 => api_ticks a
   | 231 => api_ilog a
+  | 232 => api_ticks_alts a
   | 260 => api_nice a
   | _ => bad_input
   end.
